@@ -64,8 +64,11 @@ LEVEL_TEXT = ("Theorems (Properties/C06.v, all closed under the global context).
               "C06_register_map_order_pinned_refuted (the comparison of a319b05: two enumerations, two tables -- the defect found and "
               "fixed); C06_register_total_partial -- without a level-0 -m rule the command returns bytes or an error, never a panic; "
               "C06_register_report_total; C06_register_panic_class; C06_register_total_refuted (-m 0,<rx> hides the Dest account and "
-              "Render dereferences nil: an observation, register is not in C14's command list); C06_register_matches_balance -- see "
-              "the file. "
+              "Render dereferences nil: an observation, register is not in C14's command list); C06_register_matches_balance -- for agreeing "
+              "configurations (same window, valuation, mapping, remap; --dest/--commodity = balance's --account/--commodity; no "
+              "--source; commodities shown; --close=false) the amounts shown in the register rows of a date, Dest and commodity sum "
+              "to the amount the balance report stores for that account, commodity and period end (the `balance --diff` cell), by "
+              "the posting-pair invariant with accounts (Proofs/PairAccounts.v); C06_register_rows_sum. "
               "Partial: the Go scheduler and map seeds are sampled by the check, not enumerated; for the Valuate/CloseAccounts loops "
               "byte equality of the final report is proved only through the totals (not through the renderer); which erroneous "
               "directive an error message names (stderr) is outside.")
